@@ -425,6 +425,75 @@ theorem update_passes_partial (os : Str) (orc : Oracle) (f : Str) (cs : List Cor
       exact normalize_section n k ts hbal sepf hsepf
   exact hmono hcomp
 
+/-! ## updates through a name filter (`--include` / `--exclude`) -/
+
+theorem updateEntriesF_true (fx : Fixes) (orc : Oracle) :
+    ∀ (es : List Entry) (acc : List Correction),
+      updateEntriesF fx orc (fun _ => true) es acc = updateEntries fx orc es acc
+  | [], _ => rfl
+  | e :: es, acc => by
+    unfold updateEntriesF updateEntries
+    simp only [↓reduceIte]
+    cases updateEntry fx orc e with
+    | cont cs => exact updateEntriesF_true fx orc es _
+    | stop => rfl
+    | err => rfl
+
+/-- `updateEntriesF_all2`: a filtered update that reaches `write_tests` records exactly one correction per
+test, in order, with the same name, attribute text, input AND delimiter lengths — for the tests the filter
+carries over unprocessed unconditionally, for the others when they are run exactly once.  All filters. -/
+theorem updateEntriesF_all2 (fx : Fixes) (orc : Oracle) (flt : Str → Bool) :
+    ∀ (es : List Entry) (acc cs : List Correction), (∀ e ∈ es, flt e.name = true → RunOnce e) →
+      updateEntriesF fx orc flt es acc = some cs →
+      ∃ new, cs = acc ++ new ∧ All2 (fun e c => c.dkey = e.dkey) es new
+  | [], acc, cs, _, h => by
+    simp only [updateEntriesF, Option.some.injEq] at h
+    exact ⟨[], by simp [h], All2.nil⟩
+  | e :: es, acc, cs, hp, h => by
+    unfold updateEntriesF at h
+    by_cases hf : flt e.name = true
+    · simp only [hf, ↓reduceIte] at h
+      cases hu : updateEntry fx orc e with
+      | stop => simp [hu] at h
+      | err => simp [hu] at h
+      | cont cs' =>
+        simp only [hu] at h
+        have sp := updateEntry_spec fx orc e cs' hu
+        have hlen := sp.2.1 (hp e (by simp) hf)
+        obtain ⟨new, hnew, hall⟩ := updateEntriesF_all2 fx orc flt es _ cs (fun x hx => hp x (by simp [hx])) h
+        match cs', hlen, sp.1, hu with
+        | [c], _, hk, hu =>
+          refine ⟨c :: new, by simp [hnew], All2.cons ?_ hall⟩
+          -- the correction is `e.corr _`: delimiter lengths come with it
+          obtain ⟨_, _, l, hl⟩ := hp e (by simp) hf
+          have hsk : (e.attrs.expect == Expect.skip) = false := by
+            have := (hp e (by simp) hf).1; cases hx : e.attrs.expect <;> simp_all
+          have hpl := (hp e (by simp) hf).2.1
+          cases ho : orc l e.input with
+          | none => simp [updateEntry, hsk, hpl, hl, updateLangs, ho] at hu
+          | some a =>
+            obtain ⟨o, b, hform⟩ := updateLang_form fx e a
+            by_cases hstop : (updateLang fx e a).2 = true
+            · simp [updateEntry, hsk, hpl, hl, updateLangs, ho, hstop] at hu
+            · have : c = (updateLang fx e a).1 := by
+                cases hone : fx.oneCorrection <;>
+                  simp [updateEntry, hsk, hpl, hl, updateLangs, ho, hstop, hone] at hu <;> exact hu.symm
+              rw [this, hform]; rfl
+    · simp only [hf, Bool.false_eq_true, ↓reduceIte] at h
+      obtain ⟨new, hnew, hall⟩ := updateEntriesF_all2 fx orc flt es _ cs (fun x hx => hp x (by simp [hx])) h
+      exact ⟨e.corr (if (fx.keepCstFiltered && e.attrs.cst) = true then e.output else formatSexp fx e.output) :: new,
+        by simp [hnew], All2.cons (by rfl) hall⟩
+
+/-- Witness (genuine defect, finding C20-filtered-cst-reformatted): a `:cst` test that a filter carries over has
+its expectation passed through `format_sexp` — here `0:0 - 0:1 a` becomes the empty string. -/
+def eCst : Entry :=
+  { name := ['c'], input := ['a'], output := ['0', ':', '0', ' ', '-', ' ', '0', ':', '1', ' ', 'a'], hlen := 3, dlen := 3,
+    hasFields := false, attrsStr := [':', 'c', 's', 't'], attrs := { cst := true } }
+theorem filtered_update_reformats_cst :
+    (updateEntriesF {} (fun _ _ => none) (fun _ => false) [eCst] []).map (·.map (·.output)) = some [[]] := by decide +kernel
+example : (updateEntriesF { keepCstFiltered := true } (fun _ _ => none) (fun _ => false) [eCst] []).map (·.map (·.output))
+    = some [eCst.output] := by decide +kernel
+
 /-! ## formatting and normalising expectations -/
 
 /-- `format_normalize` (proved in `FormatNormalize.lean`, restated here): for every one-line S-expression
